@@ -262,6 +262,24 @@ class World:
             return lambda x: np.arange(x.nrow + 2)
         if c == "nrow":
             return lambda x: x.nrow
+        if c == "group_vec":
+            return lambda x: np.arange(x.nrow)
+        if c == "group_badlen":
+            return lambda x: np.arange(x.nrow + 2)
+        if c == "mutate":
+            # a callback that edits the (group) frame it was handed; internal views are private,
+            # so this must never write through to the caller's frame
+            def mut(x, *a):
+                for n in list(dict.keys(x)):
+                    col = dict.__getitem__(x, n)
+                    if len(col) and col.flags.writeable:
+                        try:
+                            col[...] = col[::-1].copy()
+                            col[0] = col[-1]
+                        except Exception:
+                            pass
+                return x.nrow
+            return mut
         if c == "raise_at":
             state = {"n": 0}
 
@@ -768,7 +786,7 @@ class World:
         for name, spec in pairs:
             if "c" in spec:
                 kw[name] = self.frame_callable(spec)
-                if spec["c"] == "badlen":
+                if spec["c"] in ("badlen", "group_badlen"):
                     expect_reject = True
             else:
                 kw[name] = self.build_value(spec)
@@ -777,6 +795,8 @@ class World:
         if not dict.keys(f):
             # no columns yet: any length defines the row count (a 2-D value is still no column)
             expect_reject = any("c" not in s_ and s_["kind"] == "reshaped" for n_, s_ in pairs)
+        if op.get("group") and any(s_.get("c") == "group_badlen" for n_, s_ in pairs) and f.nrow == 0:
+            expect_reject = False       # no groups: the callback is never called
         grouped = bool(op.get("group")) or bool(f._group_colnames)     # the group mark is sticky
         op["defined"] = not expect_reject and not grouped and bool(dict.keys(f)) and nrow >= 1 and \
             not any(s.get("c") in ("raise", "raise_at") for n, s in pairs) and \
@@ -798,6 +818,13 @@ class World:
                     bad.append(("untouched-column-changed", f"column {n!r} changed by modify"))
                     return bad
             for n, s in pairs:
+                if s.get("c") == "copycol" and s["name"] in tok:
+                    # the callable sees the receiver as it was: the new column is that column
+                    if M.snap_column(dict.__getitem__(res, n)) != tok[s["name"]]:
+                        bad.append(("modified-column-value", f"column {n!r} = lambda x: x[{s['name']!r}] "
+                                    f"does not equal the receiver's column {s['name']!r}"))
+                        return bad
+                    continue
                 if "c" in s:
                     continue
                 exp = self.value_token(s, nrow)
@@ -1170,6 +1197,8 @@ class World:
         v = op["value"]
         if col.dtype.kind == "M":
             v = np.datetime64(v)
+        if col.dtype.kind == "m":
+            v = np.timedelta64(v, "s")
         buf = self.bufs[h].get(name)
         changed = {(h2, n2) for h2 in self.frames for n2, b in self.bufs[h2].items()
                    if b == buf and b is not None and n2 in self.frames[h2] and h2 not in self.broken}
@@ -1394,6 +1423,8 @@ class Gen:
             return r.choice(["q", "", "zz"])
         if k == "M":
             return r.choice(M.DATES)
+        if k == "m":
+            return r.choice([7, 120])
         return r.choice([5, "w", None])
 
     # -- ops ---------------------------------------------------------------------
@@ -1594,9 +1625,15 @@ class Gen:
             if name not in [p[0] for p in pairs]:
                 pairs.append([name, spec])
         op["pairs"] = pairs
-        if r.random() < 0.12 and self.cols_of(h):
-            op["group"] = [r.choice(self.cols_of(h))]
-            op["pairs"] = [[n, s if "c" in s else {"c": "nrow"}] for n, s in pairs]
+        cols = self.cols_of(h)
+        if len(cols) >= 2 and r.random() < 0.15:
+            a, b = r.sample(cols, 2)
+            op["pairs"] = [[a, {"c": "copycol", "name": b}], [b, {"c": "copycol", "name": a}]]   # swap
+            op.pop("fault", None)
+        if r.random() < 0.15 and cols:
+            op["group"] = [r.choice(cols)]
+            kinds = ["nrow", "group_vec", "mutate"] + (["group_badlen"] if r.random() < self.fault_rate * 2 else [])
+            op["pairs"] = [[n, {"c": r.choice(kinds)}] for n, s in op["pairs"]]
         return op
 
     def g_cbind(self):
@@ -1638,7 +1675,7 @@ class Gen:
         op["names"] = self.some_names(h, 2)
         aggs = [["n", {"helper": "count"}]]
         if r.random() < 0.5:
-            aggs.append(["m", {"c": "nrow"}])
+            aggs.append(["m", {"c": r.choice(["nrow", "nrow", "mutate"])}])
         if r.random() < self.fault_rate:
             aggs.append(["e", {"c": "raise_at", "k": r.choice([1, 2])}])
             op["fault"] = "callback_raise"
